@@ -4081,6 +4081,15 @@ static void DecodeBcc(Word CondCode) {
                 else if (
                         (Flags & eSymbolFlag_NextLabelAfterBSR) && (HVal == 2) && IsBSR) {
                     OpSize = eSymbolSize32Bit;
+                }
+
+                /* BSR is the one branch whose short form is not always usable (zero
+                   displacement), so shrinking it can enlarge it again in the next
+                   pass, e.g. with an ALIGN between the BSR and its target.  Stop
+                   shrinking in late passes so that assembly always settles: */
+
+                else if (IsBSR && (PassNo > 8)) {
+                    OpSize = eSymbolSize32Bit;
                 } else {
                     OpSize = eSymbolSizeFloat32Bit;
                 }
@@ -4153,8 +4162,15 @@ static void DecodeBcc(Word CondCode) {
             }
         }
 
+        /* Only a BSR whose own target is the address right behind it makes the
+           following label special (see above).  Marking the label behind any BSR
+           let another BSR jumping to that label take the rule for itself and flip
+           between the 8 and 16 bit form from pass to pass. */
+
         if ((CodeLen > 0) && IsBSR) {
-            AfterBSRAddr = EProgCounter() + CodeLen;
+            AfterBSRAddr = (ValOK && ((HVal == 0) || ((HVal == 2) && (CodeLen == 4))))
+                                 ? EProgCounter() + CodeLen
+                                 : 0;
         }
     }
 }
